@@ -75,19 +75,20 @@ type entry struct {
 }
 
 const (
-	prop            = "C04"
-	hangBudget      = 10 * time.Second
-	fatalBudget     = 4 // driver restarts tolerated per entry and shard before the rest of the entry is skipped (backstop; the executor normally absorbs them)
-	flushEvery      = 4000
-	trimEvery       = 20000
-	quickCap        = 6000
-	quickCapSlot    = 2000
-	eventCapQuick   = 25        // contained events (process death, hang, allocation above the bound) per corpus source and shard, then the rest of that source is skipped
-	eventCapThor    = 150       // (each such event costs a process start; an entry point with a known unbounded allocation would otherwise dominate the run)
-	executorASRoom  = 512 << 20 // the executor runs under RLIMIT_AS = its virtual size at start + this
-	quickHavoc      = 20000
-	thoroughHavoc   = 500000
-	maxWitnessBytes = 2048
+	prop              = "C04"
+	hangBudget        = 10 * time.Second
+	hangConfirmBudget = 60 * time.Second // a call that exceeded hangBudget is run again alone with this budget before it counts as a hang
+	fatalBudget       = 4                // driver restarts tolerated per entry and shard before the rest of the entry is skipped (backstop; the executor normally absorbs them)
+	flushEvery        = 4000
+	trimEvery         = 20000
+	quickCap          = 6000
+	quickCapSlot      = 2000
+	eventCapQuick     = 25        // contained events (process death, hang, allocation above the bound) per corpus source and shard, then the rest of that source is skipped
+	eventCapThor      = 150       // (each such event costs a process start; an entry point with a known unbounded allocation would otherwise dominate the run)
+	executorASRoom    = 512 << 20 // the executor runs under RLIMIT_AS = its virtual size at start + this
+	quickHavoc        = 20000
+	thoroughHavoc     = 500000
+	maxWitnessBytes   = 2048
 )
 
 // outcome of one executed case (JSON: it crosses the pipe from the executor).
@@ -143,24 +144,27 @@ func execLocal(m *hostile.Meter, wd *hostile.Watchdog, e *entry, key string, in 
 }
 
 type harness struct {
-	r        *vh.Run
-	t        *testing.T
-	meter    *hostile.Meter
-	wd       *hostile.Watchdog
-	thorough bool
-	skipKey  string
-	skipping bool
-	fatals   map[string]int  // entry -> driver restarts caused in earlier attempts of this shard
-	contain  map[string]bool // entries whose remaining cases run in the executor
-	n        int64
-	seenFP   map[string]int // fingerprint -> shortest witness length
-	witness  *os.File
-	stats    map[string]*[nStats]int64
-	skipped  int64
-	cut      int64
-	ex       *executor
-	sampled  map[string]int // mutation class -> evidence samples taken in this process
-	bigRoom  bool           // the next executor gets 6 GiB of address-space room instead of 512 MiB
+	r             *vh.Run
+	t             *testing.T
+	meter         *hostile.Meter
+	wd            *hostile.Watchdog
+	thorough      bool
+	skipKey       string
+	skipping      bool
+	fatals        map[string]int  // entry -> driver restarts caused in earlier attempts of this shard
+	contain       map[string]bool // entries whose remaining cases run in the executor
+	n             int64
+	seenFP        map[string]int // fingerprint -> shortest witness length
+	witness       *os.File
+	stats         map[string]*[nStats]int64
+	skipped       int64
+	cut           int64
+	ex            *executor
+	sampled       map[string]int  // mutation class -> evidence samples taken in this process
+	bigRoom       bool            // the next executor gets 6 GiB of address-space room instead of 512 MiB
+	confirming    bool            // the next executor uses hangConfirmBudget
+	hangConfirmed map[string]bool // entry points with a confirmed hang
+	suspects      string          // file of calls that exceeded the hang budget in an earlier attempt of this shard
 }
 
 const nStats = 8
@@ -276,13 +280,18 @@ func (h *harness) runCase(e *entry, key string, in []byte) (event bool) {
 		hostile.TrimProgress()
 	}
 	h.r.Progress(key)
-	st := h.stat(e.name)
 	var o outcome
 	if h.fatals[e.name] > 0 || h.contain[e.name] {
 		o = h.remote(e, key, in)
 	} else {
 		o = execLocal(h.meter, h.wd, e, key, in)
 	}
+	return h.judge(e, key, in, o)
+}
+
+// judge records what one executed case showed.
+func (h *harness) judge(e *entry, key string, in []byte, o outcome) (event bool) {
+	st := h.stat(e.name)
 	h.r.Eval(key, true)
 	st[0]++
 	if os.Getenv("C04_DEBUG") != "" {
@@ -299,7 +308,7 @@ func (h *harness) runCase(e *entry, key string, in []byte) (event bool) {
 		return true
 	case o.Hang:
 		st[7]++
-		h.violation(prop+"|"+e.name+"|hang", fmt.Sprintf("%s did not return within %v", e.name, hangBudget), key, in, map[string]any{"entry": e.name})
+		h.violation(prop+"|"+e.name+"|hang", fmt.Sprintf("%s did not return within %v, and not within %v when run again alone in a fresh process", e.name, hangBudget, hangConfirmBudget), key, in, map[string]any{"entry": e.name})
 		return true
 	case o.Panicked:
 		st[4]++
@@ -526,6 +535,9 @@ func (h *harness) startExecutor(live bool) error {
 	if h.bigRoom {
 		cmd.Env = append(cmd.Env, "C04_EXECUTOR_ROOM_MIB=6144")
 	}
+	if h.confirming {
+		cmd.Env = append(cmd.Env, "C04_EXECUTOR_CONFIRM=1")
+	}
 	cmd.Stderr = lf
 	cmd.ExtraFiles = []*os.File{reqR, respW}
 	err = cmd.Start()
@@ -562,6 +574,16 @@ func (h *harness) remote(e *entry, key string, in []byte) outcome {
 		h.r.Inc("executor_deaths_by_thread_creation_retried")
 		o = h.remote1(e, key, in)
 	}
+	if o.Hang && !h.confirming && !h.hangConfirmed[e.name] {
+		// ten seconds can pass on a loaded machine while gigabytes are being zeroed: once more, alone, with a long budget
+		h.r.Inc("calls_beyond_the_hang_budget_run_again_alone")
+		o = h.remoteConfirm(e, key, in)
+		if !o.Hang {
+			h.r.Inc("slow_calls_that_returned_when_run_alone")
+		} else {
+			h.hangConfirmed[e.name] = true // further calls of this entry point beyond the budget are not run twice
+		}
+	}
 	if o.Fatal != "" && !o.FatalJcm && strings.Contains(o.Fatal, "out of memory") {
 		// refused inside the runtime (garbage collector, arena metadata) with no goroutine of the code under test running:
 		// the tight address-space limit was reached by what this and earlier cases left behind. The case runs once more,
@@ -573,6 +595,79 @@ func (h *harness) remote(e *entry, key string, in []byte) outcome {
 		h.stopExecutor()
 		h.bigRoom = false
 	}
+	return o
+}
+
+// confirmSuspects runs the calls again that exceeded the hang budget in an earlier attempt of this shard (each once).
+func (h *harness) confirmSuspects(es []*entry) {
+	if h.suspects == "" {
+		return
+	}
+	b, err := os.ReadFile(h.suspects)
+	if err != nil {
+		return
+	}
+	done := map[string]bool{}
+	type sus struct {
+		Entry, Key, InputHex string
+		Done                 bool
+	}
+	var todo []sus
+	for _, l := range strings.Split(string(b), "\n") {
+		var m struct {
+			Entry string `json:"entry"`
+			Key   string `json:"key"`
+			Hex   string `json:"input_hex"`
+			Done  bool   `json:"done"`
+		}
+		if l == "" || json.Unmarshal([]byte(l), &m) != nil {
+			continue
+		}
+		if m.Done {
+			done[m.Key] = true
+		} else {
+			todo = append(todo, sus{m.Entry, m.Key, m.Hex, false})
+		}
+	}
+	for _, s := range todo {
+		if done[s.Key] {
+			continue
+		}
+		var e *entry
+		for _, x := range es {
+			if x.name == s.Entry {
+				e = x
+			}
+		}
+		if e == nil {
+			continue // an entry point of the other phase
+		}
+		done[s.Key] = true
+		in, _ := hex.DecodeString(s.InputHex)
+		h.r.Inc("calls_beyond_the_hang_budget_run_again_alone")
+		o := h.remoteConfirm(e, s.Key, in)
+		if !o.Hang {
+			h.r.Inc("slow_calls_that_returned_when_run_alone")
+		} else {
+			h.hangConfirmed[e.name] = true
+		}
+		h.judge(e, s.Key, in, o)
+		mb, _ := json.Marshal(map[string]any{"key": s.Key, "done": true})
+		if f, err := os.OpenFile(h.suspects, os.O_WRONLY|os.O_APPEND, 0o644); err == nil {
+			f.Write(append(mb, '\n'))
+			f.Close()
+		}
+		h.flush()
+	}
+}
+
+// remoteConfirm runs one case alone in a fresh executor with room to finish and the long hang budget.
+func (h *harness) remoteConfirm(e *entry, key string, in []byte) outcome {
+	h.stopExecutor()
+	h.bigRoom, h.confirming = true, true
+	o := h.remote1(e, key, in)
+	h.stopExecutor()
+	h.bigRoom, h.confirming = false, false
 	return o
 }
 
@@ -635,7 +730,11 @@ func executorMain(t *testing.T) {
 		os.Exit(3)
 	}
 	meter := hostile.NewMeter()
-	wd := hostile.StartWatchdogFunc(hangBudget, func(entry, key string, in []byte) {
+	budget := hangBudget
+	if os.Getenv("C04_EXECUTOR_CONFIRM") != "" {
+		budget = hangConfirmBudget
+	}
+	wd := hostile.StartWatchdogFunc(budget, func(entry, key string, in []byte) {
 		b, _ := json.Marshal(outcome{Hang: true})
 		writeFrame(resp, b)
 		os.Exit(hostile.HangExitCode)
@@ -728,10 +827,26 @@ func TestProp(t *testing.T) {
 	r.Extra("rlimit_as_bytes", lim)
 	r.Extra("executor_rlimit_as", "virtual size at start + 512 MiB")
 
-	h := &harness{r: r, t: t, meter: hostile.NewMeter(), thorough: vh.Thorough(), skipKey: vh.SkipThrough(), seenFP: map[string]int{}, stats: map[string]*[nStats]int64{}, contain: map[string]bool{}}
+	h := &harness{r: r, t: t, meter: hostile.NewMeter(), thorough: vh.Thorough(), skipKey: vh.SkipThrough(), seenFP: map[string]int{}, stats: map[string]*[nStats]int64{}, contain: map[string]bool{}, hangConfirmed: map[string]bool{}}
 	h.skipping = h.skipKey != ""
 	h.loadFatals()
-	h.wd = hostile.StartWatchdog(r, prop, hangBudget)
+	if wdir := os.Getenv("VERIF_WORK"); wdir != "" {
+		// a call beyond the budget in this process is only a suspect: it is written down, the process asks to be restarted
+		// after the case, and the next attempt of the shard runs it again alone with the long budget (confirmSuspects)
+		i, _ := vh.Shard()
+		h.suspects = filepath.Join(wdir, fmt.Sprintf("c04-hang-suspects.%02d.jsonl", i))
+		h.wd = hostile.StartWatchdogFunc(hangBudget, func(entry, key string, in []byte) {
+			b, _ := json.Marshal(map[string]any{"entry": entry, "key": key, "input_hex": hex.EncodeToString(in)})
+			if f, err := os.OpenFile(h.suspects, os.O_CREATE|os.O_WRONLY|os.O_APPEND, 0o644); err == nil {
+				f.Write(append(b, '\n'))
+				f.Close()
+			}
+			h.flush()
+			os.Exit(hostile.HangExitCode)
+		})
+	} else {
+		h.wd = hostile.StartWatchdog(r, prop, hangBudget)
+	}
 	defer h.stopExecutor()
 	if wdir := os.Getenv("VERIF_WORK"); wdir != "" {
 		i, _ := vh.Shard()
@@ -754,6 +869,7 @@ func TestProp(t *testing.T) {
 			r.Inconclusive("reference corpus cannot be built: " + err.Error())
 			return
 		}
+		h.confirmSuspects(es)
 		for _, e := range es {
 			names = append(names, e.name)
 			if os.Getenv("C04_ALWAYS_EXECUTOR") != "" {
@@ -770,7 +886,9 @@ func TestProp(t *testing.T) {
 		h.stopExecutor()
 	})
 	// phase B: the client's reply handling against a simulated KDC on the loopback interface
-	for _, e := range liveEntries(h) {
+	les := liveEntries(h)
+	h.confirmSuspects(les)
+	for _, e := range les {
 		names = append(names, e.name)
 		r.Require("cases:"+e.name, 1)
 		h.runEntry(e)
